@@ -7,7 +7,7 @@
 From Coq Require Import List NArith Bool.
 From GV Require Import Model.Walk.
 Import ListNotations.
-Open Scope N_scope.
+Local Open Scope N_scope.
 
 Definition obj := list N.                         (* fields holding non-fresh content *)
 Definition triple_eqb (a b : N * N * N) : bool :=
